@@ -152,13 +152,22 @@ public:
         double tellB = opn2_positionTell(dev[1]), tellA = opn2_positionTell(dev[0]);
         if(std::fabs(tellB - expectTell) > 1e-6 * (1 + expectTell)) run.fail("tell-after-seek", "class" + std::to_string(tclass), "sought " + std::to_string(t) + " (length " + std::to_string(length) + ") but opn2_positionTell reports " + std::to_string(tellB));
         (void)tellA;
-        // no note sounding in B (the property states this for targets inside the song; a seek beyond the end only "rewinds to the
-        // start": a drum hit inside its 30 ms minimum life time may still be ringing out there, and is released by the next tick)
-        if(!run.failed() && tclass != 2)
+        // no note sounding in B
+        if(!run.failed())
         {
             std::vector<OPNMIDIplay::OpnChannel> &cc = Acc::chipChannels(pb);
-            for(size_t c = 0; c < cc.size(); ++c) if(!cc[c].users.empty()) { run.fail("note-sounding-after-seek", "class" + std::to_string(tclass), "chip channel " + std::to_string(c) + " has a user right after the seek"); break; }
-            for(size_t mc = 0; mc < pb->m_midiChannels.size() && !run.failed(); ++mc) if(!pb->m_midiChannels[mc].activenotes.empty()) run.fail("note-sounding-after-seek", "class" + std::to_string(tclass), "MIDI channel " + std::to_string(mc) + " has an active note right after the seek");
+            // (a drum hit struck less than 30 ms before the seek has been released by the seek's panic but rings out its minimum
+            //  life time - isOnExtendedLifeTime - until the next tick: that is a released note, not a sounding one)
+            for(size_t mc = 0; mc < pb->m_midiChannels.size() && !run.failed(); ++mc)
+                for(OPNMIDIplay::MIDIchannel::notes_iterator ni = pb->m_midiChannels[mc].activenotes.begin(); !ni.is_end(); ++ni)
+                    if(!ni->value.isOnExtendedLifeTime) { run.fail("note-sounding-after-seek", "class" + std::to_string(tclass), "MIDI channel " + std::to_string(mc) + " key " + std::to_string(ni->value.note) + " is still held right after the seek"); break; }
+            for(size_t c = 0; c < cc.size() && !run.failed(); ++c)
+                for(OPNMIDIplay::OpnChannel::users_iterator ui = cc[c].users.begin(); !ui.is_end(); ++ui)
+                {
+                    const OPNMIDIplay::OpnChannel::LocationData &u = ui->value; bool ringingOut = false;
+                    if(u.loc.MidCh < pb->m_midiChannels.size()) { OPNMIDIplay::MIDIchannel::notes_iterator ni = pb->m_midiChannels[u.loc.MidCh].find_activenote(u.loc.note); if(!ni.is_end() && ni->value.isOnExtendedLifeTime) ringingOut = true; }
+                    if(!ringingOut) { run.fail("note-sounding-after-seek", "class" + std::to_string(tclass), "chip channel " + std::to_string(c) + " has a user (MIDI channel " + std::to_string(u.loc.MidCh) + " key " + std::to_string(u.loc.note) + ") right after the seek"); break; }
+                }
             size_t soundingA = 0; for(size_t mc = 0; mc < pa->m_midiChannels.size(); ++mc) soundingA += pa->m_midiChannels[mc].activenotes.size();
             if(soundingA) run.count("notes_sounding_at_target");
         }
